@@ -37,3 +37,41 @@ Proof.
 Qed.
 Lemma src_clipped_bounding_box_eq log clip : src_Clipped_bounding_box (Build_Clipped log clip) = clip.
 Proof. reflexivity. Qed.
+
+(* ---- round 5 (5): for an ARBITRARY parent (any function of the parent's state, failing or not): the adapter hands the parent exactly
+   the lowered call, keeps the state the parent returns and returns the parent's Result unchanged (audit3 1.3: the returned Result
+   was dropped and the parent always answered Ok) ---- *)
+Lemma src_translated_fill_solid_any (F : list call -> rect -> Z -> list call * (unit + unit)) log d area col :
+  src_Translated_fill_solid F (Build_Translated log d) area col
+  = (Build_Translated (fst (F log (translate_rect area d) col)) d, snd (F log (translate_rect area d) col)).
+Proof.
+  unfold src_Translated_fill_solid. cbn [Translated_parent Translated_offset].
+  change (src_Rectangle_translate area d) with (translate_rect area d). destruct (F log (translate_rect area d) col); reflexivity.
+Qed.
+Lemma src_translated_fill_contiguous_any (F : list call -> rect -> stream -> list call * (unit + unit)) log d area cs :
+  src_Translated_fill_contiguous F (Build_Translated log d) area cs
+  = (Build_Translated (fst (F log (translate_rect area d) cs)) d, snd (F log (translate_rect area d) cs)).
+Proof.
+  unfold src_Translated_fill_contiguous. cbn [Translated_parent Translated_offset].
+  change (src_Rectangle_translate area d) with (translate_rect area d). destruct (F log (translate_rect area d) cs); reflexivity.
+Qed.
+Lemma src_translated_clear_any (F : list call -> Z -> list call * (unit + unit)) log d col :
+  src_Translated_clear F (Build_Translated log d) col = (Build_Translated (fst (F log col)) d, snd (F log col)).
+Proof. unfold src_Translated_clear. cbn [Translated_parent Translated_offset]. destruct (F log col); reflexivity. Qed.
+Lemma src_clipped_fill_solid_any (F : list call -> rect -> Z -> list call * (unit + unit)) log clip area col :
+  size_i32 (sz area) -> size_i32 (sz clip) ->
+  src_Clipped_fill_solid F (Build_Clipped log clip) area col
+  = (Build_Clipped (fst (F log (intersection area clip) col)) clip, snd (F log (intersection area clip) col)).
+Proof.
+  intros Ha Hc. unfold src_Clipped_fill_solid. cbn [Clipped_parent Clipped_clip_area].
+  rewrite src_Rectangle_intersection_eq by assumption. destruct (F log (intersection area clip) col); reflexivity.
+Qed.
+
+(* a parent that fails: the error comes back and the parent's state is whatever the parent left *)
+Definition fail_solid (log : list call) (r : rect) (c : Z) : list call * (unit + unit) := (log, inr tt).
+Lemma src_translated_fill_solid_failing log d area col :
+  src_Translated_fill_solid fail_solid (Build_Translated log d) area col = (Build_Translated log d, inr tt).
+Proof. reflexivity. Qed.
+Lemma src_clipped_fill_solid_failing log clip area col :
+  src_Clipped_fill_solid fail_solid (Build_Clipped log clip) area col = (Build_Clipped log clip, inr tt).
+Proof. reflexivity. Qed.
